@@ -10,6 +10,10 @@ From RPFT Require Import Base.Sexp Base.PyStr Base.Result Gen.Tables Flow.Lts Fl
      Comp.Compile.
 Import ListNotations.
 
+(* The constants probed from the tree must never be computed away by a proof step: every lemma is to hold for both
+   values (cbn / simpl would otherwise reduce `if flag then .. else ..` with the value of THIS run). *)
+Global Opaque explicit_names_claimed padding_edges_dropped_at_read has_group_edges_by_name has_group_by_name_from_noop.
+
 (* the test table both builders consult *)
 Definition nab (t : str) : bool := memb t no_args_tests.
 
@@ -121,7 +125,8 @@ Definition bucket_name (c : econd) : str := or_default (c_cname c) (c_value c).
 (* an explicit category name must not be one of them, nor "No Response"; an explicit bucket name does not look like an
    invented one *)
 Definition edge_okb (bases : list str) (e : redge) : bool :=
-  match c_cname (e_cond e) with [] => true | nm => negb (gnameb bases nm) && negb (str_eqb nm s_NoResponse) end
+  (explicit_names_claimed ||
+   match c_cname (e_cond e) with [] => true | nm => negb (gnameb bases nm) && negb (str_eqb nm s_NoResponse) end)
   && negb (starts_with s_Bucket (bucket_name (e_cond e))).
 
 Definition row_okb (bases : list str) (cr : crow) : bool :=
@@ -166,10 +171,14 @@ Definition gen_ok (c : econd) : Prop :=
    unnamed and its invented name lies in G, or named with a name outside G *)
 Definition is_bucket_name (n : str) : Prop := exists k, n = s_Bucket ++ dec_nat k.
 
+(* the premise on category names - needed only as long as an explicit name may hit a category it does not mean (the
+   finding category-name-clash; Gen/Tables.v: explicit_names_claimed says whether the tree has the repair) *)
+Definition cname_ok (c : econd) : Prop :=
+  if explicit_names_claimed then True
+  else match c_cname c with [] => gen_ok c | nm => ~ gname nm /\ nm <> s_NoResponse end.
+
 Definition cond_ok (c : econd) : Prop :=
-  row_args c = ref_args c /\ noop_args c = ref_args c /\
-  match c_cname c with [] => gen_ok c | nm => ~ gname nm /\ nm <> s_NoResponse end /\
-  ~ is_bucket_name (bucket_name c).
+  row_args c = ref_args c /\ noop_args c = ref_args c /\ cname_ok c /\ ~ is_bucket_name (bucket_name c).
 
 (* ---------------------------------------------------------------- the simulation relation *)
 
@@ -182,7 +191,8 @@ Definition dest_sim (phi : list cluster) (uu : list id) (d : dest) (d' : dst) : 
   end.
 
 (* a name the sheet fixes is the category's name; a name it leaves open is one of the invented names *)
-Definition name_sim (c : cname) (n : str) : Prop := match c with CFixed s => s = n | CWild => gname n end.
+Definition name_sim (c : cname) (n : str) : Prop :=
+  match c with CFixed s => s = n | CWild => if explicit_names_claimed then True else gname n end.
 
 Definition cat_sim (phi : list cluster) (uu : list id) (x : cname * dest) (c : ccat) : Prop :=
   name_sim (fst x) (cc_name c) /\ dest_sim phi uu (snd x) (cat_dest c).
@@ -198,6 +208,13 @@ Definition wait_sim (phi : list cluster) (uu : list id) (d : rdec) (w : cwait) :
   | _, _ => False
   end.
 
+(* which categories carry an invented name (SwitchRouter._generated_name_uuids): exactly the ones the sheet leaves
+   unnamed; with the repair the names of a router are pairwise distinct *)
+Record marks_ok (d : rdec) (r : cswitch) : Prop := {
+  mk_marks : Forall2 (fun x c => memb (cc_uuid c) (sw_auto r) = match fst x with CWild => true | CFixed _ => false end) (rd_cats d) (sw_cats r);
+  mk_incl : incl (sw_auto r) (map cc_uuid (sw_cats r));
+  mk_names : explicit_names_claimed = true -> NoDup (map cc_name (sw_all_cats r)) }.
+
 Record dec_sim (phi : list cluster) (uu : list id) (d : rdec) (r : cswitch) : Prop := {
   ds_random : rd_random d = false;
   ds_operand : rd_operand d = sw_operand r;
@@ -206,7 +223,8 @@ Record dec_sim (phi : list cluster) (uu : list id) (d : rdec) (r : cswitch) : Pr
   ds_cats : Forall2 (cat_sim phi uu) (rd_cats d) (sw_cats r);
   ds_default : cat_sim phi uu (rd_default d) (sw_default r);
   ds_cases : Forall2 (case_sim (map cc_uuid (sw_all_cats r))) (rd_cases d) (sw_cases r);
-  ds_uuids : NoDup (map cc_uuid (sw_all_cats r)) }.
+  ds_uuids : NoDup (map cc_uuid (sw_all_cats r));
+  ds_marks : marks_ok d r }.
 
 (* a random split: buckets only; the i-th bucket, when the sheet does not name it, is called "Bucket <i+2>" *)
 Definition bucket_sim (phi : list cluster) (uu : list id) (ix : nat * (cname * dest)) (c : ccat) : Prop :=
